@@ -1,1 +1,150 @@
 //! Read-only views of crate-private state, for the simulator's oracles.
+
+use crate::mmtk::{MMTK, SFT_MAP, VM_MAP};
+use crate::scheduler::WorkBucketStage;
+use crate::util::Address;
+use crate::vm::VMBinding;
+use enum_map::Enum;
+
+/// What kind of collection is in progress (meaningful between `stop_all_mutators` and
+/// `resume_mutators`).
+#[derive(Clone, Copy, Debug, Default, PartialEq, Eq)]
+pub struct GcInfo {
+    /// `Some(true)` for a nursery GC of a generational plan, `None` for non-generational plans.
+    pub nursery: Option<bool>,
+    /// 0 = not a concurrent plan, 1 = Full, 2 = InitialMark, 3 = FinalMark.
+    pub pause: u8,
+    pub concurrent_work_in_progress: bool,
+    pub emergency: bool,
+    pub user_triggered: bool,
+    pub may_move: bool,
+    pub last_exhaustive: bool,
+}
+
+pub fn gc_info<VM: VMBinding>(mmtk: &MMTK<VM>) -> GcInfo {
+    let plan = mmtk.get_plan();
+    let nursery = plan.generational().map(|g| g.is_current_gc_nursery());
+    let (pause, cwip) = match plan.concurrent() {
+        None => (0, false),
+        Some(c) => (
+            // `Pause` is `repr(u8)`: Full = 1, InitialMark = 2, FinalMark = 3.
+            c.current_pause().map(|p| p as u8).unwrap_or(0),
+            c.concurrent_work_in_progress(),
+        ),
+    };
+    GcInfo {
+        nursery,
+        pause,
+        concurrent_work_in_progress: cwip,
+        emergency: mmtk.state.is_emergency_collection(),
+        user_triggered: mmtk.state.is_user_triggered_collection(),
+        may_move: plan.current_gc_may_move_object(),
+        last_exhaustive: plan.last_collection_was_exhaustive(),
+    }
+}
+
+/// Name of the space the SFT map resolves `addr` to ("empty" for the empty SFT).
+pub fn sft_name(addr: Address) -> &'static str {
+    SFT_MAP.get_checked(addr).name()
+}
+
+/// Does the VM map's descriptor for `addr` name the space with descriptor index `idx`?
+pub fn descriptor_index(addr: Address) -> Option<usize> {
+    let d = VM_MAP.get_descriptor_for_address(addr);
+    if d.is_empty() {
+        None
+    } else {
+        Some(d.get_index())
+    }
+}
+
+#[derive(Clone, Debug)]
+pub struct SpaceInfo {
+    pub name: &'static str,
+    pub index: usize,
+    pub reserved_pages: usize,
+    pub committed_pages: usize,
+    pub contiguous: bool,
+    pub start: Address,
+    pub extent: usize,
+    pub immortal: bool,
+    pub movable: bool,
+}
+
+pub fn spaces<VM: VMBinding>(mmtk: &MMTK<VM>) -> Vec<SpaceInfo> {
+    let mut v = Vec::new();
+    mmtk.get_plan().for_each_space(&mut |s| {
+        let c = s.common();
+        let pr = s.get_page_resource();
+        v.push(SpaceInfo {
+            name: c.name,
+            index: c.descriptor.get_index(),
+            reserved_pages: pr.reserved_pages(),
+            committed_pages: pr.committed_pages(),
+            contiguous: c.contiguous,
+            start: c.start,
+            extent: c.extent,
+            immortal: c.immortal,
+            movable: c.movable,
+        });
+    });
+    v
+}
+
+#[derive(Clone, Debug)]
+pub struct BucketInfo {
+    pub stage: usize,
+    pub name: String,
+    pub enabled: bool,
+    pub open: bool,
+    pub empty: bool,
+    pub has_sentinel: bool,
+    pub stw: bool,
+}
+
+pub fn buckets<VM: VMBinding>(mmtk: &MMTK<VM>) -> Vec<BucketInfo> {
+    let mut v = Vec::new();
+    for (stage, b) in mmtk.scheduler.work_buckets.iter() {
+        v.push(BucketInfo {
+            stage: stage.into_usize(),
+            name: format!("{:?}", stage),
+            enabled: b.is_enabled(),
+            open: b.is_open(),
+            empty: b.is_empty(),
+            has_sentinel: b.has_sentinel_nolock(),
+            stw: stage.is_stw(),
+        });
+    }
+    v
+}
+
+pub fn stage_name(stage: usize) -> String {
+    format!("{:?}", WorkBucketStage::from_usize(stage))
+}
+
+pub fn num_stages() -> usize {
+    WorkBucketStage::LENGTH
+}
+
+pub fn has_designated_work<VM: VMBinding>(mmtk: &MMTK<VM>) -> bool {
+    mmtk.scheduler.worker_group.has_designated_work()
+}
+
+/// (parked workers, total workers, has current goal, number of pending requests)
+pub fn monitor_state<VM: VMBinding>(mmtk: &MMTK<VM>) -> Option<(usize, usize, bool, usize)> {
+    mmtk.scheduler.worker_monitor.verif_snapshot()
+}
+
+/// Name of the space a mutator's allocator for `semantics` allocates into.
+pub fn allocator_space_name<VM: VMBinding>(
+    mutator: &crate::Mutator<VM>,
+    mmtk: &MMTK<VM>,
+    semantics: crate::AllocationSemantics,
+) -> Option<&'static str> {
+    let selector = mmtk.get_plan().get_allocator_mapping()[semantics];
+    if matches!(selector, crate::util::alloc::AllocatorSelector::None) {
+        return None;
+    }
+    let a = unsafe { mutator.allocator(selector) };
+    Some(a.get_space().get_name())
+}
